@@ -53,4 +53,6 @@ func runC11(r *Report) {
 	ruleErrorIsLooksAtTarget(r)
 	ruleQueueFailureIsFinal(r, "queue-failure-is-final")
 	ruleTornRecordIsNotEOF(r)
+	// (the failure of the merged table's Close is reported before the flag says the compaction succeeded)
+	ruleFlagAfterClose(r)
 }
